@@ -140,6 +140,8 @@ def run_tlc(module, cfg, workers=None, simulate=None, depth=None, seed=None, tim
             cmd += list(extra)
         cmd.append(module + ".tla")
         env = dict(os.environ)
+        # TLC unpacks its class files into a fresh directory under java.io.tmpdir on every start: keep that inside the scratch copy
+        env["JAVA_TOOL_OPTIONS"] = (env.get("JAVA_TOOL_OPTIONS", "") + " -Djava.io.tmpdir=" + wd).strip()
         if depth_first:
             env["JAVA_TOOL_OPTIONS"] = (env.get("JAVA_TOOL_OPTIONS", "") + " -Dtlc2.tool.queue.IStateQueue=StateDeque").strip()
         t0 = time.time()
